@@ -134,7 +134,7 @@ def finish(ctx, level, explanation, extra_cov=None):
     known = load_known()
     viol = 0
     kn = 0
-    rdir = os.path.join(VERIF, 'replay', ctx.prop)
+    rdir = os.path.join(os.environ.get('VERIF_REPLAY_DIR') or os.path.join(VERIF, 'replay'), ctx.prop)
     for f in ctx.findings:
         if f.key in known:
             kn += 1
@@ -170,9 +170,10 @@ def finish(ctx, level, explanation, extra_cov=None):
         'wall_s': round(wall, 2),
         'violations': viol,
     }
-    os.makedirs(os.path.join(VERIF, 'evidence'), exist_ok=True)
-    with open(os.path.join(VERIF, 'evidence', '%s.json' % ctx.prop), 'w') as fh:
-        json.dump(ev, fh, indent=1, default=str)
+    if not os.environ.get('VERIF_NO_EVIDENCE'):
+        os.makedirs(os.path.join(VERIF, 'evidence'), exist_ok=True)
+        with open(os.path.join(VERIF, 'evidence', '%s.json' % ctx.prop), 'w') as fh:
+            json.dump(ev, fh, indent=1, default=str)
     ctx.cleanup()
     print('%s %s: findings=%d known=%d violations=%d wall=%.1fs' % (ctx.prop, ctx.tier, len(ctx.findings), kn, viol, wall))
     return 1 if viol else 0
